@@ -116,6 +116,14 @@ def havoc_mut_args(eng, st, name, args, call):
 def p_identity(eng, st, name, args, site, depth, call):
     a = args[0]
     if name.endswith(("Into>::into", "Into::into", "From>::from", "From::from")):
+        if call is not None and len(call.get("substs") or ()) == 2:
+            # `impl<T> From<T> for Option<T>`: x.into() is Some(x)
+            env = eng._tyenv.get(getattr(eng, "_cur_cfid", None)) or {}
+            subs = [env.get(x.get("ty", ""), x.get("ty", "")) for x in call["substs"]]
+            src, dst = (subs[0], subs[1]) if call.get("callee", "").endswith("Into::into") else (subs[1], subs[0])
+            m = re.match(r"^(?:std|core)::option::Option<(.+)>$", dst)
+            if m and m.group(1) == src:
+                return one(st, SOME(eng.val(st, a)))
         impl = eng.workspace_from(st, a, call)
         if impl is not None and depth < eng.max_depth and impl.path not in st.stack:
             return eng.run_body(st, impl, [eng.val(st, a)], depth + 1, site)
